@@ -18,10 +18,7 @@ func VerifHarness_CounterStep() {
 	if zz.Thorough() && zz.Choose(2) == 1 {
 		size = 16
 	}
-	head := zz.Choose(size)
-	if !zz.Thorough() {
-		head = []int{0, 5, 7}[zz.Choose(3)] // quick: no wrap, wrap in the middle, wrap at the end
-	}
+	head := zz.Choose(size) // every head position: no wrap, wrap in the middle, wrap at the end
 	n := zz.Choose(size) // live entries: 0..size-1 (a ring never fills completely)
 	// value ranges (stated bound): quick 2^16 / 2^20, thorough 2^40 / 2^60
 	ib, tb, cb := int64(1<<16), int64(1<<20), int64(1<<12)
@@ -65,13 +62,18 @@ func VerifHarness_CounterStep() {
 
 	c.updateAndAdd(count, now)
 
-	// reference: plain sliding window over the same events (branch-free accumulation)
+	// reference: plain sliding window over the same events. The window test forks (zz.Split) instead
+	// of being folded into an ite: on each path the reference sum is then a plain chain of additions
+	// that the solver normalises, where the ite form needed the bit-blaster to re-derive "times are
+	// ordered, so everything after the first kept event is kept" inside a 64-bit sum equality
+	// (10 s to >70 s per query, some undecided). The fork adds no paths: exactly one side is feasible.
 	want := count
 	kept := 0
 	for k := 0; k < n; k++ {
 		tk, ck := ts[k], cs[k]
 		// same-window test in subtraction form; VerifHarness_WindowCompare shows it equals tk >= now-interval
 		if tk-(now-interval) >= 0 {
+			zz.Split()
 			want += ck
 			kept++
 		}
@@ -87,28 +89,23 @@ func VerifHarness_CounterStep() {
 	}
 	zz.Assert(live == kept+1, "number of live entries differs from the number of events in the window")
 	zz.Assert(c.minTime == now-interval, "minTime not updated")
+	// one assertion per live slot / dead slot rather than one conjunction over the ring: the same
+	// statement, but each query is a single comparison (mostly already an atom of the path condition)
 	var sum int64
 	prevT := c.minTime
-	ordered := true
 	for k := 0; k < live; k++ {
 		i := (c.head + k) % sz
 		ti, ci := c.times[i], c.counts[i]
-		ok1 := ti >= prevT
-		ok2 := ti <= now
-		ordered = ordered && ok1
-		ordered = ordered && ok2
+		zz.Assert(ti >= prevT, "live times are not ordered within the window")
+		zz.Assert(ti <= now, "a live time lies after now")
 		prevT = ti
 		sum += ci
 	}
-	zz.Assert(ordered, "live times are not ordered within the window")
 	zz.Assert(sum == c.total, "total is not the sum of the live counts")
-	deadZero := true
 	for k := live; k < sz; k++ {
 		ck := c.counts[(c.head+k)%sz]
-		z := ck == 0
-		deadZero = deadZero && z
+		zz.Assert(ck == 0, "a dead slot kept a count")
 	}
-	zz.Assert(deadZero, "a dead slot kept a count")
 	if sz != size {
 		zz.Reach("resized")
 	}
